@@ -1,6 +1,6 @@
 (* C09 -- failures surface only as InverterError, with a correct consecutive-failure count. *)
 From Coq Require Import List Bool Arith.
-From GW Require Import Proto ProtoEvolves ProtoProps FailCount FailCountProofs.
+From GW Require Import Proto ProtoEvolves ProtoProps ProtoNoExc FailCount FailCountProofs.
 Import ListNotations.
 
 (* the count carried by the RequestFailedException of a failing request = failed requests since the last successful one
@@ -19,7 +19,19 @@ Proof. exact classify_no_other. Qed.
 Theorem C09_reported_outcome_is_the_mapped_one : forall s k r a, In a (snd (exec_finish s k r)) -> a = ADone k (outcome_of s r).
 Proof. exact exec_finish_acts. Qed.
 
+(* no run of the protocol model -- any callers, any I/O, timer, OS-error, close() and new-loop events, any fault oracle -- leaves an
+   exception in an event-loop callback: the callbacks that dereference the current command / response_future are only scheduled
+   after the first transmission created them, and the retry recursion never runs out of fuel *)
+Theorem C09_no_exception_in_loop_callbacks : forall es kd ka r s acts, run (init kd ka r) es = Some (s, acts) -> ~ In ALoopExc acts.
+Proof. exact no_exception_in_loop_callbacks. Qed.
+
+(* non-vacuity: ALoopExc is what the model emits for such an exception (an error callback on a protocol object that never sent) *)
+Theorem C09_loop_exception_is_expressible : snd (error_received (init UDP false 1)) = [ALoopExc].
+Proof. exact (eq_refl : snd (error_received (init UDP false 1)) = [ALoopExc]). Qed.
+
 Print Assumptions C09_reported_count.
 Print Assumptions C09_first_failure_after_success_reports_one.
 Print Assumptions C09_exceptions_are_mapped.
 Print Assumptions C09_reported_outcome_is_the_mapped_one.
+Print Assumptions C09_no_exception_in_loop_callbacks.
+Print Assumptions C09_loop_exception_is_expressible.
